@@ -45,6 +45,9 @@ func (fc *FuncCtx) bindResults(res ssa.Value, tvs []TV) {
 		n := fc.callSites[key]
 		fc.callSites[key]++
 		fc.siteResults[fmt.Sprintf("%s#%d", key, n)] = tvs[0]
+		for k, tv := range tvs {
+			fc.siteResults[fmt.Sprintf("%s#%d.%d", key, n, k)] = tv
+		}
 	}
 	switch len(tvs) {
 	case 0:
